@@ -123,6 +123,9 @@ def _tree(args: argparse.Namespace):
             if "exclude" in analysis_toml["codebase"]:
                 args.excludes += analysis_toml["codebase"]["exclude"]
 
+        # An analysis file without any platform describes zero platforms.
+        analysis_toml.setdefault("platform", {})
+
         for name in args.platforms:
             if name not in analysis_toml["platform"].keys():
                 raise KeyError(
